@@ -351,6 +351,28 @@ def check_set_end_point(fx, R, cq, cname, dim, f):
                 dist = [c for c in x.cond if isinstance(c[1], (sp.Lt, sp.Le, sp.Gt, sp.Ge)) and not idx_cmp]
                 exact = [c for c in x.cond if isinstance(c[1], (sp.Eq,)) or (isinstance(c[1], sp.Ne) and not c[2])]
                 steps_zero = all(x.fields.get(('this', 'rayStep_[%d]' % k_)) in (0, None) for k_ in range(dim)) or any('rayStep_' in '.'.join(map(str, p_)) for p_ in x.fields)
+                # a comparison of the distance with ZERO (`!(range > 0)`, `range <= 0`, `range == 0`) is the exact coincidence of the two points
+                def zero_cmp(c):
+                    e_ = c[1]
+                    pol = c[2]
+                    while isinstance(e_, sp.Not):
+                        e_, pol = e_.args[0], not pol
+                    if not isinstance(e_, (sp.Lt, sp.Le, sp.Gt, sp.Ge)) or 0 not in (e_.lhs, e_.rhs):
+                        return False
+                    other_small = (isinstance(e_, (sp.Le, sp.Lt)) and e_.rhs == 0) or (isinstance(e_, (sp.Ge, sp.Gt)) and e_.lhs == 0)      # quantity <(=) 0
+                    return other_small == pol
+                coincident = [c for c in dist if zero_cmp(c)] + [c for c in x.cond if isinstance(c[1], sp.Not) and zero_cmp(c)]
+                if coincident and not [c for c in dist if not zero_cmp(c)]:
+                    dist, exact = [], coincident
+                if (exact or idx_cmp) and not dist:
+                    # an exact early exit is only right if everything cast() reads afterwards has been refreshed before it
+                    stale = [fld_ for fld_ in ('rayEndIndexes_', 'rayEndPoint_') if not any(k_[0] == 'this' and str(k_[1]).startswith(fld_) and not (isinstance(v_, sp.Symbol) and v_.name.startswith('this.' + fld_))
+                                                                                             for k_, v_ in x.fields.items())]
+                    if stale:
+                        R.violated('Y4', '%s::setEndPoint:early-return-state' % cname.split('<')[0], 'under `%s` (coincident origin and end point, which the quantifier names) setEndPoint() returns before it has assigned %s: '
+                                   'cast() then counts its cells from the end cell of the PREVIOUS cast (computeRayNumberOfCells reads rayEndIndexes_) and steps with the previous crossing parameters - the result has '
+                                   'more than one entry and depends on earlier casts [%s]' % (desc, ', '.join(stale), cname), fx.rel(f['loc']), 'E-STATE')
+                        continue
                 if dist and not exact and not idx_cmp:
                     R.violated('Y4', '%s::setEndPoint:distance-shortcut' % cname.split('<')[0], 'under `%s` setEndPoint() returns before the per-axis initialisation (no stepping is set up); the condition bounds the '
                                'DISTANCE between origin and end, which does not put them in the same cell: a ray shorter than one cell that crosses a border (or several, near a corner) then repeats its origin '
